@@ -2608,17 +2608,17 @@ def _g_idioms(self, grp, env):
             n, r = self.rng.randint(50, 300), self.pick([3, 5, 8])
             st.append(S(['var %sring [%d][]%s' % (u, r, t), 'var %sstr [%d]string' % (u, r), 'var %stot %s' % (u, t), 'for i := 0; i < %d; i++ {' % n,
                          '\ts := make([]%s, i%%%d+1)' % (t, self.pick([5, 17, 33])), '\tfor j := range s {', '\t\ts[j] = %s(i*j) + {0}' % t, '\t}', '\t%sring[i%%%d] = s' % (u, r),
-                         '\tw := "x"', '\tfor j := 0; j < i%%5; j++ {', '\t\tw += "yz"', '\t}', '\told := %sstr[i%%%d]' % (u, r), '\t%sstr[(i*3)%%%d] = w + old[:len(old)/2]' % (u, r),
+                         '\tw := "x"', '\tfor j := 0; j < i%5; j++ {', '\t\tw += "yz"', '\t}', '\told := %sstr[i%%%d]' % (u, r), '\t%sstr[(i*3)%%%d] = w + old[:len(old)/2]' % (u, r),
                          '\tif len(%sstr[(i*3)%%%d]) > 40 {' % (u, r), '\t\t%sstr[(i*3)%%%d] = "r"' % (u, r), '\t}', '}',
                          'for i := 0; i < %d; i++ {' % r, '\tfor _, v := range %sring[i] {' % u, '\t\t%stot = %stot*%s(7) + v' % (u, u, t), '\t}', '\t%stot += %s(len(%sstr[i]))' % (u, t, u), '}',
                          'println("churn", %stot)' % u], [self.nonconst(env, t, T())]))
         elif k == 'tree_build':
             grp.decls.append((P + 'TB', 'type %sKids []*%sTn\n\ntype %sTn struct {\n\tv %s\n\tname string\n\tkids %sKids\n\tm map[int32]string\n}\n\n'
-                              'func %sbuild(d int32, k %s, tag string) *%sTn {\n\tn := &%sTn{v: k + %s(d), name: tag + "n", m: map[int32]string{}}\n\tif d > 0 {\n\t\tfor i := int32(0); i < 3; i++ {\n'
-                              '\t\t\tc := %sbuild(d-1, k*%s(3)+%s(i), n.name)\n\t\t\tn.kids = append(n.kids, c)\n\t\t\tn.m[i] = c.name\n\t\t}\n\t}\n\treturn n\n}\n\n'
-                              'func %ssum(n *%sTn) %s {\n\tt := n.v + %s(len(n.name)) + %s(len(n.m))\n\tfor _, c := range n.kids {\n\t\tt = t*%s(3) + %ssum(c)\n\t}\n\treturn t\n}'
+                              'func %stbuild(d int32, k %s, tag string) *%sTn {\n\tn := &%sTn{v: k + %s(d), name: tag + "n", m: map[int32]string{}}\n\tif d > 0 {\n\t\tfor i := int32(0); i < 3; i++ {\n'
+                              '\t\t\tc := %stbuild(d-1, k*%s(3)+%s(i), n.name)\n\t\t\tn.kids = append(n.kids, c)\n\t\t\tn.m[i] = c.name\n\t\t}\n\t}\n\treturn n\n}\n\n'
+                              'func %stsum(n *%sTn) %s {\n\tt := n.v + %s(len(n.name)) + %s(len(n.m))\n\tfor _, c := range n.kids {\n\t\tt = t*%s(3) + %stsum(c)\n\t}\n\treturn t\n}'
                               % (P, P, P, t, P, p, t, P, P, t, p, t, t, p, P, t, t, t, t, p)))
-            st.append(S(['for r := 0; r < %d; r++ {' % self.rng.randint(1, 3), '\ttr := %sbuild(%d, {0}, "t")' % (p, self.rng.randint(1, 4)), '\tprintln("tree", %ssum(tr), len(tr.kids))' % p, '}'], [T()]))
+            st.append(S(['for r := 0; r < %d; r++ {' % self.rng.randint(1, 3), '\ttr := %stbuild(%d, {0}, "t")' % (p, self.rng.randint(1, 4)), '\tprintln("tree", %stsum(tr), len(tr.kids))' % p, '}'], [T()]))
         else:
             raise ValueError(name)
     st.append(S('%s ^= {0}' % pool_t, [T()]))
